@@ -5,25 +5,53 @@ the resulting invariant of `Index.index`: the hook log and the arenas agree (`Lo
 import TgModel.Lemmas.IdeSemKeeps
 namespace Tg
 namespace Ide
-/-! ### the functions that push and pop scopes, for relations that ignore the scope stack -/
+/-! ### the functions that push and pop scopes -/
+
+/-- what the pass needs to know about scope pushes and pops: pushing a scope that binds nothing and
+popping are allowed; the one push that binds a variable (`foreach`) is supplied for the whole
+construct.  Relations that ignore the scope stack (`NoScopeRel`) are instances. -/
+class BlockRel (R : IndexCtx → IndexCtx → Prop) : Prop where
+  push : ∀ k, (∀ nm id, k ≠ ScopeKind.foreach nm id) → Keeps R (scopesPush k)
+  pop : Keeps R scopesPop
+  foreach : ∀ (r : Rec), (∀ n, Keeps R (r.value n)) → (∀ n, Keeps R (r.typ n)) →
+    (∀ n, Keeps R (r.statementList n)) → ∀ n, Keeps R (Index.indexForeach r n)
+
+section noscope
+variable {R : IndexCtx → IndexCtx → Prop} [StdRel R] [NoScopeRel R]
+
+theorem scopesPush_noscope (k : ScopeKind) : Keeps R (scopesPush k) :=
+  Keeps.modify _ fun c => NoScopeRel.scopes c c _ (KeepRel.refl c)
+
+theorem scopesPop_noscope : Keeps R scopesPop := by
+  unfold scopesPop
+  keeps
+  exact Keeps.modify _ fun c => NoScopeRel.scopes c c _ (KeepRel.refl c)
+
+instance : BlockRel R where
+  push := fun k _ => scopesPush_noscope k
+  pop := scopesPop_noscope
+  foreach := fun r hv ht hsl n => by
+    unfold Index.indexForeach
+    keeps
+    · exact scopesPush_noscope _
+    · exact scopesPop_noscope
+
+end noscope
 
 section passB
 set_option linter.unusedSectionVars false
 set_option linter.unusedVariables false
-variable {R : IndexCtx → IndexCtx → Prop} [StdRel R] [VarRel R] [NoScopeRel R] {r : Rec}
+variable {R : IndexCtx → IndexCtx → Prop} [StdRel R] [VarRel R] [BlockRel R] {r : Rec}
   (hv : ∀ n, Keeps R (r.value n)) (ht : ∀ n, Keeps R (r.typ n))
   (hsl : ∀ n, Keeps R (r.statementList n)) (hsf : ∀ n, Keeps R (r.sourceFile n))
 
-omit [VarRel R] in
-theorem scopesPush_keeps (k : ScopeKind) : Keeps R (scopesPush k) :=
-  Keeps.modify _ fun c => NoScopeRel.scopes c c _ (KeepRel.refl c)
-macro_rules | `(tactic| keeps_prim) => `(tactic| exact scopesPush_keeps _)
+omit [StdRel R] [VarRel R] in
+theorem scopesPush_keeps (k : ScopeKind) (hk : ∀ nm id, k ≠ ScopeKind.foreach nm id) : Keeps R (scopesPush k) :=
+  BlockRel.push k hk
+macro_rules | `(tactic| keeps_prim) => `(tactic| exact scopesPush_keeps _ (fun _ _ h => nomatch h))
 
-omit [VarRel R] in
-theorem scopesPop_keeps : Keeps R scopesPop := by
-  unfold scopesPop
-  keeps
-  exact Keeps.modify _ fun c => NoScopeRel.scopes c c _ (KeepRel.refl c)
+omit [StdRel R] [VarRel R] in
+theorem scopesPop_keeps : Keeps R scopesPop := BlockRel.pop
 macro_rules | `(tactic| keeps_prim) => `(tactic| exact scopesPop_keeps)
 
 include hv ht hsl hsf
@@ -63,9 +91,8 @@ theorem Index.indexValue_keeps (a0 : _) : Keeps R (Index.indexValue r a0) := by
   keeps
 macro_rules | `(tactic| keeps_prim) => `(tactic| (apply Index.indexValue_keeps <;> assumption))
 
-theorem Index.indexForeach_keeps (a0 : _) : Keeps R (Index.indexForeach r a0) := by
-  unfold Index.indexForeach
-  keeps
+theorem Index.indexForeach_keeps (a0 : _) : Keeps R (Index.indexForeach r a0) :=
+  BlockRel.foreach r hv ht hsl a0
 macro_rules | `(tactic| keeps_prim) => `(tactic| (apply Index.indexForeach_keeps <;> assumption))
 
 theorem Index.indexIf_keeps (a0 : _) : Keeps R (Index.indexIf r a0) := by
@@ -128,7 +155,7 @@ end passB
 /-! ### the knot -/
 
 section knot
-variable {R : IndexCtx → IndexCtx → Prop} [StdRel R] [VarRel R] [NoScopeRel R]
+variable {R : IndexCtx → IndexCtx → Prop} [StdRel R] [VarRel R] [BlockRel R]
 
 theorem mkRec_keeps (fuel : Nat) :
     (∀ n, Keeps R ((Index.mkRec fuel).value n)) ∧ (∀ n, Keeps R ((Index.mkRec fuel).typ n)) ∧
@@ -164,7 +191,7 @@ def LogRel (c c' : IndexCtx) : Prop := LogOK c.symbolMap → LogOK c'.symbolMap
 instance : StdRel LogRel where
   refl := fun _ h => h
   trans := fun h1 h2 h => h2 (h1 h)
-  of_eq := fun c c' h1 _ h => by rw [h1]; exact h
+  of_eq := fun c c' _ h1 _ h => by rw [h1]; exact h
   sm := fun _ _ hs h => h.step hs
 
 instance : NoScopeRel LogRel where
